@@ -910,6 +910,37 @@ void VariableManager::process_variable_declaration(const ASTNode *node) {
     bool init_value_known = false;
     TypedValue init_value(static_cast<int64_t>(0), InferredType());
 
+    // Copy-initialisation of a struct variable from something other than a
+    // plain variable: `Pt a = oa[0];` (the element exists as the struct
+    // variable "oa[0]": its name is kept and the copy is made where
+    // `Pt a = b;` makes it, at the end of this function) and `Out b = *p;`
+    // (a struct value without a name). Both used to evaluate the initialiser
+    // and then drop the struct, leaving the new variable default-initialised.
+    std::string struct_copy_source_name;
+    std::shared_ptr<Variable> struct_copy_value;
+
+    // `oa[k]` が構造体配列の要素（"oa[1]" という名前の構造体変数）で、型が
+    // 宣言と一致する場合にその名前を返す。添字式はここで評価される
+    auto resolve_struct_array_element = [&](const ASTNode *ref,
+                                            const std::string &struct_type,
+                                            std::string &element_name) {
+        Variable *array_var =
+            find_variable(interpreter_->extract_array_name(ref));
+        if (!array_var || !array_var->is_array ||
+            (!array_var->is_struct && array_var->type != TYPE_STRUCT) ||
+            array_var->is_pointer || array_var->is_reference) {
+            return false;
+        }
+        std::string name = interpreter_->extract_array_element_name(ref);
+        Variable *element_var = find_variable(name);
+        if (!element_var || !element_var->is_struct ||
+            element_var->struct_type_name != struct_type) {
+            return false;
+        }
+        element_name = name;
+        return true;
+    };
+
     // 初期化式がある場合
     if (node->init_expr) {
         // v0.10.0: ラムダ式の処理（最優先で処理）
@@ -1053,6 +1084,14 @@ void VariableManager::process_variable_declaration(const ASTNode *node) {
 
             return; // struct member access代入処理完了後は早期リターン
 
+        } else if (var.is_struct && !var.is_reference &&
+                   !var.is_rvalue_reference &&
+                   node->init_expr->node_type == ASTNodeType::AST_ARRAY_REF &&
+                   resolve_struct_array_element(node->init_expr.get(),
+                                                var.struct_type_name,
+                                                struct_copy_source_name)) {
+            // Pt a = oa[0]; 添字式は上の解決で一度だけ評価済み。
+            // コピーは関数末尾（Pt a = b; と同じ箇所）で行う
         } else if (var.is_struct &&
                    (node->init_expr->node_type == ASTNodeType::AST_FUNC_CALL ||
                     (node->init_expr->node_type == ASTNodeType::AST_UNARY_OP &&
@@ -2044,6 +2083,14 @@ void VariableManager::process_variable_declaration(const ASTNode *node) {
                     // 非数値かつ非文字列の場合は0初期化
                     setNumericFields(var, 0.0L);
                     var.str_value.clear();
+                    // 構造体値（Out b = *p; など）は関数末尾でコピーする
+                    if (typed_result.is_struct() && var.is_struct &&
+                        !var.is_reference && !var.is_rvalue_reference &&
+                        typed_result.struct_data->is_struct &&
+                        typed_result.struct_data->struct_type_name ==
+                            var.struct_type_name) {
+                        struct_copy_value = typed_result.struct_data;
+                    }
                 }
                 var.is_assigned = true;
             }
@@ -2555,6 +2602,19 @@ void VariableManager::process_variable_declaration(const ASTNode *node) {
                 // 通常のデフォルトコンストラクタを呼び出し
                 interpreter_->call_default_constructor(node->name,
                                                        resolved_type);
+            }
+        } else if (!struct_copy_source_name.empty()) {
+            // Pt a = oa[0]; 要素は名前付きの構造体変数なので Pt a = b; と同じ
+            interpreter_->call_copy_constructor(node->name, resolved_type,
+                                                struct_copy_source_name);
+        } else if (struct_copy_value) {
+            // Out b = *p; 名前のない構造体値: メンバーワイズコピー
+            // （ネストした構造体・配列メンバーの個別変数も更新する）
+            if (Variable *dest_var = interpreter_->find_variable(node->name)) {
+                dest_var->struct_members = struct_copy_value->struct_members;
+                dest_var->is_assigned = true;
+                interpreter_->sync_direct_access_from_struct_value(node->name,
+                                                                   *dest_var);
             }
         } else {
             // 引数なしの場合はデフォルトコンストラクタを呼び出し
